@@ -13,6 +13,7 @@ import (
 	"strconv"
 	"strings"
 
+	"github.com/go-critic/go-critic/checkers/rulesdata"
 	"github.com/go-critic/go-critic/linter"
 
 	"verifharness/internal/common"
@@ -72,6 +73,7 @@ func extractRules(path string) ([]shippedRule, error) {
 			}
 			r := shippedRule{group: fd.Name.Name}
 			isRule := false
+			at := ""
 			var cur ast.Expr = es.X
 			for {
 				call, ok := cur.(*ast.CallExpr)
@@ -95,16 +97,44 @@ func extractRules(path string) ([]shippedRule, error) {
 				case "Report":
 					r.report = lit(call.Args[0])
 				case "At":
-					r.where += " @At(" + text(call.Args[0]) + ")"
+					at = " @At(" + text(call.Args[0]) + ")"
 				}
 				cur = sel.X
 			}
+			r.where += at
 			if isRule {
 				out = append(out, r)
 			}
 		}
 	}
 	return out, nil
+}
+
+// executedRules reads the same table from the precompiled IR that the embedded checkers actually execute
+// (checkers/rulesdata.PrecompiledRules): a rule whose data drifted from rules.go shows up here.
+func executedRules() []shippedRule {
+	covered := map[string]bool{}
+	for _, g := range coveredGroups {
+		covered[g] = true
+	}
+	var out []shippedRule
+	for _, g := range rulesdata.PrecompiledRules.RuleGroups {
+		if !covered[g.Name] {
+			continue
+		}
+		for _, r := range g.Rules {
+			sr := shippedRule{group: g.Name, suggest: r.SuggestTemplate, report: r.ReportTemplate}
+			for _, p := range r.SyntaxPatterns {
+				sr.patterns = append(sr.patterns, p.Value)
+			}
+			sr.where = strings.Join(strings.Fields(r.WhereExpr.Src), " ")
+			if r.LocationVar != "" {
+				sr.where += " @At(m[\"" + r.LocationVar + "\"])"
+			}
+			out = append(out, sr)
+		}
+	}
+	return out
 }
 
 func (r shippedRule) coq() string {
@@ -169,6 +199,65 @@ func classPurity(orig, _ string) string {
 		return "impure-operand"
 	}
 	return "unclassified"
+}
+
+var tsRe = regexp.MustCompile(`tS(\d+)\(`)
+
+// fmtOperand: operands for the fmt-related rewrite rules: plain strings, and defined string types with every
+// subset of the methods fmt consults (String, Error, Format, GoString), a pointer with a String method, nil
+func fmtOperand(p func(...string) string) string {
+	if p("plain", "cat", "cat", "cat") == "plain" {
+		return p("s", "fs()", "ms", "string(bs)", `"a%b"`, "(&pS{s})", "(*pS)(nil)", "a", "p")
+	}
+	k := p("0", "1", "2", "3", "4", "5", "6", "7", "8", "9", "10", "11", "12", "13", "14", "15")
+	return "tS" + k + "(" + p("s", `"x"`, "fs()") + ")"
+}
+
+// fmtClass names the cause: which method of the operand fmt consults before the one the rewrite relies on
+func fmtClass(orig, repl string) string {
+	viaString := strings.HasSuffix(strings.TrimSpace(repl), ".String()") || strings.Contains(repl, ".String())")
+	if m := tsRe.FindStringSubmatch(orig); m != nil {
+		k, _ := strconv.Atoi(m[1])
+		switch {
+		case viaString && k&4 != 0:
+			return "formatter-before-stringer"
+		case viaString && k&2 != 0:
+			return "error-before-stringer"
+		case !viaString && k != 0:
+			return "defined-string-with-methods"
+		}
+		return "defined-string-" + exprgen.FmtMethods(k)
+	}
+	switch {
+	case strings.Contains(orig, "(*pS)(nil)"):
+		return "nil-pointer-stringer"
+	case strings.Contains(orig, "pS{"):
+		return "pointer-stringer"
+	}
+	return classPurity(orig, "")
+}
+
+// rules rewriting fmt calls (oracle only): the result depends on the operand's method set
+var fmtSpecs = []ruleSpec{
+	{checker: "redundantSprint", kind: "expr", weight: 4,
+		gen: func(p func(...string) string) string {
+			x := fmtOperand(p)
+			return p("fmt.Sprint("+x+")", `fmt.Sprintf("%s", `+x+")", `fmt.Sprintf("%v", `+x+")")
+		},
+		rewrite: fromQuickFix, class: fmtClass},
+	{checker: "preferFprint", kind: "stmts", weight: 2,
+		gen: func(p func(...string) string) string {
+			x := fmtOperand(p)
+			call := p("fmt.Sprint("+x+", a)", `fmt.Sprintf("%v|%s", `+x+", t)", "fmt.Sprintln("+x+")")
+			switch p("w", "io", "ws") {
+			case "w":
+				return "bw := &bytes.Buffer{}; bw.Write([]byte(" + call + ")); s = bw.String()"
+			case "ws":
+				return "bw := &bytes.Buffer{}; bw.WriteString(" + call + "); s = bw.String()"
+			}
+			return "bw := &strings.Builder{}; bw.WriteString(" + call + "); s = bw.String()"
+		},
+		rewrite: fromQuickFix, class: fmtClass},
 }
 
 // hand-written checkers whose diagnostics promise an equivalent rewrite (oracle only)
@@ -417,9 +506,9 @@ var ruleSpecs = append([]ruleSpec{
 			}
 			return body, strings.Replace(body, "switch true {", "switch {", 1), true
 		}, class: classPurity},
-}, handSpecs...)
+}, append(handSpecs, fmtSpecs...)...)
 
-const rulesLintHeader = "package p\n\nimport (\n\t\"bytes\"\n\t\"strings\"\n\t\"time\"\n)\n\nvar _ = bytes.Equal\nvar _ = strings.Index\nvar _ time.Time\n"
+const rulesLintHeader = "package p\n\nimport (\n\t\"bytes\"\n\t\"fmt\"\n\t\"strings\"\n\t\"time\"\n)\n\nvar _ = bytes.Equal\nvar _ = strings.Index\nvar _ time.Time\nvar _ = fmt.Sprint\n"
 
 func runRules(meta *common.Meta, tier string, seed int64, outDir string) {
 	// ---- tie: the rule source shipped in checkers/rules/rules.go vs the model's table
@@ -438,6 +527,25 @@ func runRules(meta *common.Meta, tier string, seed int64, outDir string) {
 			"Definition cases : list (rule * rule) := zip_rules shipped_rules observed.\n"+
 			"Definition case_ok (c : rule * rule) : bool := rule_eqb (fst c) (snd c).\n"+
 			"Definition M := Eval vm_compute in (if Nat.eqb (List.length shipped_rules) (List.length observed) then mismatches case_ok cases else [999%N]).\nPrint M.\n")
+	// ... and the executed IR vs the model's table (the Where text of the IR is the filter's source as the
+	// precompiler recorded it; local helper functions of rules.go are inlined there, see ir_where_of)
+	execd := executedRules()
+	var eitems, eidx []string
+	for _, r := range execd {
+		eitems = append(eitems, r.coq())
+		eidx = append(eidx, fmt.Sprintf("IR %s: %q where %q suggest %q report %q", r.group, r.patterns, r.where, r.suggest, r.report))
+	}
+	common.WriteFile(filepath.Join(outDir, "cases_c10_rules_ir.v"),
+		"From GC Require Import Base Model_Expr Model_Rewrites.\n"+
+			"(* the rules of the covered groups as the binary executes them (rulesdata.PrecompiledRules) *)\n"+
+			"Definition observed : list rule := [\n"+strings.Join(eitems, ";\n")+"\n].\n"+
+			"Definition cases : list (rule * rule) := zip_rules (map ir_view shipped_rules) observed.\n"+
+			"Definition case_ok (c : rule * rule) : bool := rule_eqb (fst c) (snd c).\n"+
+			"Definition M := Eval vm_compute in (if Nat.eqb (List.length shipped_rules) (List.length observed) then mismatches case_ok cases else [999%N]).\nPrint M.\n")
+	common.WriteFile(filepath.Join(outDir, "cases_c10_rules_ir.index.txt"), strings.Join(eidx, "\n")+"\n")
+	meta.CaseFiles = append(meta.CaseFiles, "cases_c10_rules_ir.v")
+	meta.Evaluations += len(execd)
+	meta.Distribution["rules_compared_with_executed_ir"] = len(execd)
 	var idx []string
 	for _, r := range shipped {
 		idx = append(idx, fmt.Sprintf("%s: %q where %q suggest %q report %q", r.group, r.patterns, r.where, r.suggest, r.report))
@@ -479,12 +587,12 @@ func runRules(meta *common.Meta, tier string, seed int64, outDir string) {
 	}
 	var keep []*ruleProg
 	for _, p := range progs {
-		if _, err := exprgen.Load("p.go", rulesLintHeader+exprgen.LintPreamble+render(p)); err == nil {
+		if _, err := exprgen.Load("p.go", rulesLintHeader+exprgen.LintPreamble+exprgen.FmtCatalogue()+render(p)); err == nil {
 			keep = append(keep, p)
 		}
 	}
 	var src strings.Builder
-	src.WriteString(rulesLintHeader + exprgen.LintPreamble)
+	src.WriteString(rulesLintHeader + exprgen.LintPreamble + exprgen.FmtCatalogue())
 	byFn := map[string]*ruleProg{}
 	for _, p := range keep {
 		src.WriteString(render(p))
